@@ -74,7 +74,34 @@ pub fn exec_line(line: &str) -> String {
     }
 }
 
+/// ops that run whole key generations / signatures get a watchdog: a change that makes one of them loop for ever must
+/// show up as that op's result ("TIMEOUT"), not as a hung check.  The worker thread is abandoned (the process exits
+/// at the end of main regardless).  VH_OP_TIMEOUT (seconds, default 300).
+fn exec_line_guarded(l: &str) -> String {
+    let slow = ["sk_", "sign", "keygen", "interop", "babai", "first_", "verify"];
+    if !slow.iter().any(|p| l.starts_with(p)) {
+        return exec_line(l);
+    }
+    let secs: u64 = std::env::var("VH_OP_TIMEOUT").ok().and_then(|s| s.parse().ok()).unwrap_or(300);
+    let (tx, rx) = std::sync::mpsc::channel();
+    let line = l.to_string();
+    let _ = std::thread::Builder::new().stack_size(256 << 20).spawn(move || {
+        let _ = tx.send(exec_line(&line));
+    });
+    match rx.recv_timeout(std::time::Duration::from_secs(secs)) {
+        Ok(o) => o,
+        Err(_) => format!("TIMEOUT after {secs}s"),
+    }
+}
+
 fn exec_all(lines: &[String]) -> Vec<String> {
+    // VH_WARMUP: an op executed alone before anything else in this process (used by the cross-process comparison of C15 to
+    // give the two processes different histories: one starts with Falcon-512 key generation, the other with Falcon-1024)
+    if let Ok(w) = std::env::var("VH_WARMUP") {
+        if !w.trim().is_empty() {
+            let _ = exec_line(&w);
+        }
+    }
     let nthreads = std::thread::available_parallelism().map(|n| n.get()).unwrap_or(4).min(16);
     let mut out = vec![String::new(); lines.len()];
     let chunk = (lines.len() + nthreads - 1) / nthreads.max(1);
@@ -85,7 +112,7 @@ fn exec_all(lines: &[String]) -> Vec<String> {
         for (ls, os) in lines.chunks(chunk).zip(out.chunks_mut(chunk)) {
             s.spawn(move || {
                 for (l, o) in ls.iter().zip(os.iter_mut()) {
-                    *o = exec_line(l);
+                    *o = exec_line_guarded(l);
                 }
             });
         }
@@ -102,6 +129,9 @@ pub enum Verdict {
 }
 
 fn oracle(prop: &str, op: &[&str], out: &str) -> Verdict {
+    if out.starts_with("TIMEOUT after") {
+        return Verdict::Fail(format!("{} did not terminate ({out})", op[0]));
+    }
     match prop {
         "C12" => c12::oracle(op, out),
         "C07" => c07::oracle(op, out),
@@ -238,6 +268,14 @@ fn main() {
         "seedsearch" => {
             // vh seedsearch <N> <start> <count> <outfile>
             seeds::search(args[2].parse().unwrap(), args[3].parse().unwrap(), args[4].parse().unwrap(), &args[5]);
+        }
+        "fgsearch" => {
+            // vh fgsearch <N> <start> <count> <outfile>
+            seeds::fgsearch(args[2].parse().unwrap(), args[3].parse().unwrap(), args[4].parse().unwrap(), &args[5]);
+        }
+        "seedrecheck" => {
+            // vh seedrecheck <N> <file of indices> <outfile>
+            seeds::recheck(args[2].parse().unwrap(), &args[3], &args[4]);
         }
         "judge" => {
             // vh judge <PROP> <ops.txt> <outdir>: execute given ops and evaluate the property's predicate (replays)
